@@ -110,6 +110,16 @@ def slice_pc(ob):
 def to_smt2(prelude, ob, sliced=False) -> str:
     s = z3.Solver()
     pc, axioms = (list(ob.pc), list(ob.axioms))
+    if sliced == "ground":
+        # quantifier-free part of the path condition only, no prelude: pure ground reasoning (congruence + arithmetic)
+        from .symexec import has_quantifier
+
+        sg = z3.Solver()
+        for p in list(ob.pc) + list(ob.axioms):
+            if not has_quantifier(p):
+                sg.add(p)
+        sg.add(z3.Not(ob.goal))
+        return sg.to_smt2()
     if sliced == "strict":
         pc, axioms = slice_pc_strict(ob)
     elif sliced:
@@ -152,7 +162,7 @@ def solve_file(path: str, timeout: float, backends: List[str]) -> Tuple[str, str
         elif be == "z3-4.8":
             cmd = [Z3_OLD, "-T:%d" % int(timeout), path]
         elif be == "cvc5":
-            cmd = [CVC5, "--tlimit=%d" % int(timeout * 1000), "--full-saturate-quant", path]
+            cmd = [CVC5, "--tlimit=%d" % int(timeout * 1000), "--full-saturate-quant", "--strings-exp", path]
         else:
             continue
         st, detail, t = _run(cmd, timeout)
@@ -170,6 +180,9 @@ def discharge(prelude: List[Any], obligations: List[Any], timeout: float = 10.0,
        variants only drop assumptions, so their `unsat` is a valid discharge; `sat` is only believed for the full query."""
     backends = backends or ["z3", "cvc5", "z3-4.8"]
     jobs = int(os.environ.get("PYVC_JOBS", jobs))
+    if os.environ.get("PYVC_REPO"):
+        # runs on a scratch copy (mutants, patched trees) keep their queries apart from the runs on /repo
+        tag = "%s@%s" % (tag, os.path.basename(os.environ["PYVC_REPO"].rstrip("/")))
     outdir = os.path.join(CACHE, tag)
     if os.path.isdir(outdir):
         import shutil
@@ -198,7 +211,7 @@ def discharge(prelude: List[Any], obligations: List[Any], timeout: float = 10.0,
         work = []
         for idx, r, ob in items:
             text = to_smt2(prelude, ob, sliced=mode)
-            work.append((idx, r, ob, write(idx, text, {"strict": ".strict", True: ".sliced", False: ""}[mode])))
+            work.append((idx, r, ob, write(idx, text, {"ground": ".ground", "strict": ".strict", True: ".sliced", False: ""}[mode])))
 
         def job(item):
             idx, r, ob, path = item
@@ -224,8 +237,9 @@ def discharge(prelude: List[Any], obligations: List[Any], timeout: float = 10.0,
     if os.environ.get("PYVC_NO_SLICING") == "1":
         remaining = open_items
     else:
-        remaining = run_round(open_items, "strict", min(timeout, 3.0), backends[:1], "(strict-slice)")
-        remaining = run_round(remaining, True, min(timeout, 5.0), backends[:1], "(sliced)")
+        remaining = run_round(open_items, "ground", min(timeout, 2.0), backends[:1], "(ground-slice)")
+        remaining = run_round(remaining, "strict", min(timeout, 3.0), backends[:1], "(strict-slice)")
+        remaining = run_round(remaining, True, min(timeout, 4.0), [b for b in backends if b in ("z3", "cvc5")], "(sliced)")
     remaining = run_round(remaining, False, timeout, backends, "")
     for idx, r, ob in open_items:
         if not r.smt2_path:
@@ -235,7 +249,7 @@ def discharge(prelude: List[Any], obligations: List[Any], timeout: float = 10.0,
                     r.smt2_path = pth
                     break
     stubborn = [(idx, r, ob) for idx, r, ob in remaining if r.status not in ("unsat", "sat")]
-    if stubborn and drop_portfolio:
+    if stubborn and drop_portfolio and os.environ.get("PYVC_NO_DROP") != "1":
         variants = []
         for idx, r, ob in stubborn:
             pre = prelude.relevant_prelude(list(ob.axioms) + list(ob.pc) + [ob.goal]) \
